@@ -543,6 +543,15 @@ def _preprocess_series(definition: ast.With) -> _Series:
     """Determine the properties of a series."""
     series = _Series()
     series.name = definition.items[0].context_expr.value
+    # An (anti)hermitian marker determines the lower triangle on its own, so it is
+    # evaluated before any expression regardless of where it appears.
+    definition.body.sort(
+        key=lambda node: not (
+            isinstance(node, ast.Expr)
+            and isinstance(node.value, ast.Name)
+            and node.value.id in ("hermitian", "antihermitian")
+        )
+    )
     series.definition = _HermitianTransformer(series.name).visit(definition)
 
     for node in definition.body:
